@@ -332,8 +332,7 @@ class PCreep(Pattern):
         self.buffer = []
         self.pos = 0
         self.rcount = 1
-        while len(self.buffer) < self.length:
-            self.buffer.append(next(self.pattern))
+        # the buffer is filled by __next__, which resolves `length` (it may be a pattern)
 
     def __next__(self):
         length = Pattern.value(self.length)
